@@ -184,7 +184,7 @@ func init() {
 	fw.Register(&fw.Prop{
 		ID:   "C15",
 		Race: true,
-		Rule: "cases: (det) groups of 4 generated documents (60 % from a generator biased to ids/anchors/links, out-of-flow boxes broken at page boundaries, string-set/running elements, target-counter, per-document @counter-style definitions, hyphenation in 4 languages, data-URI and same-URL/different-content images, @font-face, tables/flex/grid/columns, pseudo-elements, invalid declarations, replacement user-agent sheets, grid containers with explicit fixed / auto / min-content / max-content / minmax / fr tracks, implicit tracks, auto-placed, explicitly placed and spanning items, alignment and nested grids, languages with region / script / variant subtags under quotes: auto with nested <q> and open-quote / close-quote pseudo-elements and hyphenation, footnotes, bookmark-label / string-set built from target-counter / target-text, SVG gradients inheriting through href chains; 40 % hostile grammar documents of internal/gen; pango or go-text engine): each document rendered and written twice, rendered again in the opposite order (other history, one parsed user-agent sheet object reused), every document of the biased generator rendered 4 more times (each render meets other map iteration orders), optionally once more with one font configuration reused; every group is executed a second time by another worker process (cases N..2N-1) and compared by the driver; (conc) 8 documents rendered by 8 goroutines at once for 4 (quick) / 12 (thorough) rounds with a rotating assignment, own font configuration per render, half of the cases with one shared parsed user-agent sheet, each concurrent trace compared with the document's sequential trace; (cold) the same with 8 small documents as the very first renders of a fresh process, 2 rounds. One case per worker process; all workers are the -race build and every report of the race detector is a violation. Non-trivial: at least one document of the case drew text and (det, primary copy only) some document has >= 2 pages; distinct = distinct input. Documents whose text has the input features of an open order-dependence defect (knownDefectDomain: grid with a spanning item and an fr track; grid with a percentage height; grid with footnotes; a language with two prefix keys of the quotes table without explicit quotes; SVG gradient href cycle) are rendered but left out of the comparisons and counted (docs_excluded_*); the biased generator avoids these combinations while the switches in gen.go are on.",
+		Rule: "cases: (det) groups of 4 generated documents (60 % from a generator biased to ids/anchors/links, out-of-flow boxes broken at page boundaries, string-set/running elements, target-counter, per-document @counter-style definitions (a random subset of cs1..cs4 with per-document symbols and, in a quarter of the documents, a redefinition of lower-greek / upper-roman / lower-roman or an attempted one of disc) reaching the render's counter-style table through the document's <style>, a <link>-ed sheet, a sheet @import-ed by the <style> (url() / string, absolute / relative URL, with or without a media list) or a sheet imported by an imported / linked sheet (relative URL, sometimes with a circular @import back), two thirds of the documents with a list that uses every style of the family whether the document defines it or not (an undefined one falls back to decimal, so a definition surviving the render that read it changes another document's markers), hyphenation in 4 languages, data-URI and same-URL/different-content images, @font-face, tables/flex/grid/columns, pseudo-elements, invalid declarations, replacement user-agent sheets, grid containers with explicit fixed / auto / min-content / max-content / minmax / fr tracks, implicit tracks, auto-placed, explicitly placed and spanning items, alignment and nested grids, languages with region / script / variant subtags under quotes: auto with nested <q> and open-quote / close-quote pseudo-elements and hyphenation, footnotes, bookmark-label / string-set built from target-counter / target-text, SVG gradients inheriting through href chains; 40 % hostile grammar documents of internal/gen; pango or go-text engine): each document rendered and written twice, rendered again in the opposite order (other history, one parsed user-agent sheet object reused), every document of the biased generator rendered 4 more times (each render meets other map iteration orders), optionally once more with one font configuration reused; every group is executed a second time by another worker process (cases N..2N-1) and compared by the driver; (conc) 8 documents rendered by 8 goroutines at once for 4 (quick) / 12 (thorough) rounds with a rotating assignment, own font configuration per render, half of the cases with one shared parsed user-agent sheet, each concurrent trace compared with the document's sequential trace; (cold) the same with 8 small documents as the very first renders of a fresh process, 2 rounds. One case per worker process; all workers are the -race build and every report of the race detector is a violation. Non-trivial: at least one document of the case drew text and (det, primary copy only) some document has >= 2 pages; distinct = distinct input. Documents whose text has the input features of an open order-dependence defect (knownDefectDomain: grid with a spanning item and an fr track; grid with a percentage height; grid with footnotes; a language with two prefix keys of the quotes table without explicit quotes; SVG gradient href cycle) are rendered but left out of the comparisons and counted (docs_excluded_*); the biased generator avoids these combinations while the switches in gen.go are on.",
 		N:    func(tier string) int { s := sz(tier); return 2*s.det + s.conc + s.cold },
 		Gen: func(_ *rand.Rand, i int, tier string) any {
 			return genCase(runSeed(), i, tier)
@@ -228,6 +228,15 @@ func init() {
 				"docs_open_quote_auto":      int64(s.det / 4),
 				"docs_svg_gradient_href":    int64(s.det / 4),
 				"docs_footnote":             int64(s.det / 8),
+				// routes of @counter-style rules into the per-render table (<style>, <link>, @import, nested @import)
+				"docs_counter_style_via_inline":                      int64(s.det / 2),
+				"docs_counter_style_via_import":                      int64(s.det / 2),
+				"docs_counter_style_via_link":                        int64(s.det / 4),
+				"docs_counter_style_via_nested":                      int64(s.det / 4),
+				"docs_counter_style_overrides_predefined":            int64(s.det / 4),
+				"docs_counter_style_sampler":                         int64(s.det),
+				"docs_imported_counter_style_used":                   int64(s.det / 2),
+				"groups_imported_counter_style_visible_to_other_doc": int64(s.det / 16),
 			}
 		},
 		Assumptions: []string{
@@ -235,6 +244,7 @@ func init() {
 			"documents never reference time, randomness or the environment; resources come from a deterministic in-memory fetcher; every render gets its own font configuration except in the explicit reuse variants (which skip documents with @font-face, whose faces are added to the configuration by design)",
 			"the cross-process comparison relies on the framework running different batches in different worker processes",
 			"an order dependence shows only if two of the 3 to 8 renders of a document met map iteration orders with different outcomes: an effect that needs one order in n is seen with probability about 1-(1-1/n)^7 per document that has it",
+			"a definition leaking out of an @import-ed (or linked) style sheet is seen only for the at-rules the generator routes through such sheets: @counter-style rules and plain style rules; @font-face and @page rules are generated in the document's <style> only, and user style sheets never import",
 			"five open order-dependence defects (known findings F-C15-grid-span-flex-order, -grid-row-percent-height-order, -grid-footnote-order, -lang-quotes-prefix-order, -svg-gradient-href-cycle-order) are not re-reported: their input features are kept out of the compared documents (generator switches + text predicate), so another order dependence that needs the same features is not seen either until they are repaired and the switches turned off",
 		},
 		// one case per worker process: every concurrent case meets the lazily filled process-wide
@@ -533,6 +543,75 @@ func (c *checker) account(d *cdoc, o *outcome) {
 				c.res.Count("docs_grid_intrinsic_track", 1)
 			}
 		}
+		// route of the document's @counter-style rules into the render's table
+		if ci := csInfoOf(d); ci.route != "" {
+			c.res.Count("docs_counter_style_via_"+strings.ReplaceAll(ci.route, "-", "_"), 1)
+			if ci.override != "" {
+				c.res.Count("docs_counter_style_overrides_predefined", 1)
+			}
+			if ci.sampler {
+				c.res.Count("docs_counter_style_sampler", 1)
+				if ci.imported() && ci.defined != "" {
+					c.res.Count("docs_imported_counter_style_used", 1)
+				}
+			}
+		}
+	}
+}
+
+// csInfo: what the biased generator recorded on <html> about the document's @counter-style rules.
+type csInfo struct {
+	route    string // inline | import | import-screen | link | nested
+	defined  string // digits of the cs1..cs4 the document defines
+	override string // predefined style it redefines
+	sampler  bool   // has the list using every style of the family
+}
+
+var reCSInfo = regexp.MustCompile(` data-csr="([a-z-]*)" data-csd="([0-9]*)" data-cso="([a-z-]*)" data-css="(true|false)"`)
+
+func csInfoOf(d *cdoc) csInfo {
+	if !d.Biased {
+		return csInfo{}
+	}
+	m := reCSInfo.FindStringSubmatch(d.HTML)
+	if m == nil {
+		return csInfo{}
+	}
+	return csInfo{route: m[1], defined: m[2], override: m[3], sampler: m[4] == "true"}
+}
+
+// imported: the rules reach the table through an @import that applies to the print medium.
+func (ci csInfo) imported() bool { return ci.route == "import" || ci.route == "nested" }
+
+// countLeakVisible counts the ordered pairs (A, B) of documents of a group such that A defines a
+// counter style in an @import-ed sheet that B uses (sampler) without defining it: a definition that
+// survived the render of A would change the markers of B.
+func (c *checker) countLeakVisible() {
+	n := 0
+	for i := range c.in.Docs {
+		a := csInfoOf(&c.in.Docs[i])
+		if !a.imported() {
+			continue
+		}
+		for j := range c.in.Docs {
+			b := csInfoOf(&c.in.Docs[j])
+			if i == j || !b.sampler || c.excluded[i] || c.excluded[j] {
+				continue
+			}
+			vis := a.override != "" && a.override != "disc" && a.override != b.override
+			for _, k := range a.defined {
+				if !strings.ContainsRune(b.defined, k) {
+					vis = true
+				}
+			}
+			if vis {
+				n++
+			}
+		}
+	}
+	c.res.Count("pairs_imported_counter_style_visible_to_other_doc", int64(n))
+	if n > 0 {
+		c.res.Count("groups_imported_counter_style_visible_to_other_doc", 1)
 	}
 }
 
@@ -659,6 +738,7 @@ func (c *checker) det() {
 		}
 	}
 	if !in.Mirror {
+		c.countLeakVisible()
 		// pass 2: again in the opposite order: the last document is repeated at once (D1), the others
 		// after a different history (D3); custom user-agent sheets are parsed once per distinct text and
 		// shared by all renders of this pass
